@@ -315,7 +315,7 @@ struct C14 : Property
 		uselocale(LC_GLOBAL_LOCALE);
 		std::vector<std::string> ref = pass(p, ctx, true, false);
 		if (!g_alloc.live.empty())
-			ctx.fail("C14:leak@" + g_alloc.site_of(g_alloc.live.begin()->second), "reference pass: %zu allocation(s) remain:%s", g_alloc.live.size(), g_alloc.describe_live().c_str());
+			ctx.fail("C14:leak@" + g_alloc.first_live_site(), "reference pass: %zu allocation(s) remain:%s", g_alloc.live.size(), g_alloc.describe_live().c_str());
 		// ---- test pass under the configured locales
 		struct Restore
 		{
@@ -360,7 +360,7 @@ struct C14 : Property
 				ctx.fail("C14:result-depends-on-locale:" + p.ops[i].kind, "op %zu (%s) under global=%s thread=%s gives %s ; in the C locale it gives %s", i, p.ops[i].kind.c_str(),
 				         glob ? "vf_COMMA" : "C", thr == 0 ? "(none)" : thr == 1 ? "C" : "vf_COMMA", got[i].substr(0, 300).c_str(), ref[i].substr(0, 300).c_str());
 		if (!g_alloc.live.empty())
-			ctx.fail("C14:leak@" + g_alloc.site_of(g_alloc.live.begin()->second), "%zu allocation(s) remain:%s", g_alloc.live.size(), g_alloc.describe_live().c_str());
+			ctx.fail("C14:leak@" + g_alloc.first_live_site(), "%zu allocation(s) remain:%s", g_alloc.live.size(), g_alloc.describe_live().c_str());
 	}
 };
 REGISTER_PROPERTY(C14)
